@@ -566,14 +566,14 @@ def main(ctx):
     if regen_ok:
         ctx.obligation("tie:C05_NumSites+C05_Shapes regenerated", "tie", True, "; ".join(ctx.stats.get("extract", [])))
     t_build = time.time() - ctx.t0
-    names = ctx.audit("GojaModel.C05.Props", expect_min=74)
+    names = ctx.audit("GojaModel.C05.Props", expect_min=76)
     tie_errs = [e for e in errs if os.path.basename(e["file"]) == "Tie.lean" or "Generated" in e["file"]]
     tie_bad = {e["decl"] for e in tie_errs}
     dec_errs = [e for e in errs if os.path.basename(e["file"]) in ("DecTie.lean", "C05_Decisions.lean", "GenPrelude.lean")]
     dec_bad = {e["decl"] for e in dec_errs}
     for t in ("floatToInt_tie", "intToValue_tie", "floatToValue_tie", "floatToIntClip_tie", "toLength_tie", "toIndex_tie", "float64ToInt64Mod_tie", "intCache_tie",
               "mulNegZeroGuard_tie", "mulFitsGuard_tie", "modGuards_tie", "parseIntGuards_tie",
-              "sameAs_tie", "strictEquals_tie", "hash_tie", "normKey_tie", "toIntN_tie"):
+              "sameAs_tie", "strictEquals_tie", "hash_tie", "normKey_tie", "toIntN_tie", "radixPrefix_tie", "stringToInt_tie"):
         # translated Go decision function = hand model, for all inputs (DecTie.lean); checked by the lake build above
         if regen_ok and t not in dec_bad and not any(os.path.basename(e["file"]) != "DecTie.lean" or e["decl"] in ("?", "lake build") for e in dec_errs):
             ctx.obligation("tie:GojaModel.C05.DecTie." + t, "tie", True, "translated function proved equal to the model")
@@ -756,11 +756,22 @@ def main(ctx):
         js_expect[l] = ("o:string:" + obs_expected(sv, svz, seq), "treepair")
     # parseInt / Number / literals AT the int64 overflow boundaries of every radix 2..36 (exact big-integer oracle)
     rb = radix_boundary_cases(rng, quick)
+    pint_cases = []      # (js line, radix, trimmed text) for the Lean transcription of parseInt
     for src, exp in rb:
         l = "js " + src
         if l not in js_expect:
             lines.append(l)
             js_expect[l] = (exp, "radix-boundary")
+            mm = re.fullmatch(r'parseInt\("([^"\\]*)"(?:,(\d+))?\)', src)
+            if mm:
+                pint_cases.append((l, int(mm.group(2) or 0), mm.group(1).strip(JS_WS)))
+    for text, radix in [("", 10), ("-", 10), ("+", 0), ("0x", 0), ("0x", 16), ("-0x1F", 0), ("0x1f", 10), ("12", 1), ("12", 37), ("z", 36), ("Z9", 36), ("-0", 10),
+                        ("0X", 0), ("00x1", 0), ("1e3", 10), ("  7", 10), ("-  7", 10), ("++1", 10), ("0b11", 0), ("0b11", 2), ("11", 2), ("12", 2), ("9", 8)]:
+        l = 'js parseInt(%s,%d)' % (js_str_literal(text), radix)
+        if l not in js_expect:
+            lines.append(l)
+            js_expect[l] = (None, "producer")
+        pint_cases.append((l, radix, text.strip(JS_WS)))
     # BigInt <-> Number paths; typed-array includes/indexOf on coerced elements
     bt = bigint_and_typedarray_cases(rng, quick)
     for src, exp in bt:
@@ -841,6 +852,28 @@ def main(ctx):
             ctx.obligation("corr:str impl=Lean-mechanism", "correspondence", not bad_impl, "%d/%d; " % (len(bad_impl), len(str_cases)) + "; ".join(repr(x) for x in bad_impl[:3]))
         else:
             ctx.obligation("tie.model.run.str", "tie", False, "rc=%s %d/%d" % (rc, len(so), len(str_cases)))
+    # parseInt through the Lean transcription (sign / prefix / radix validation / accumulation loop / big path)
+    if have_model and pint_cases:
+        def units2(t):
+            b = t.encode("utf-16-be", "surrogatepass")
+            return b.hex() if b else "-"
+        rc, po, _ = ctx.run_lines([model], ["pint %d %s" % (r, units2(t)) for _, r, t in pint_cases], timeout=900)
+        if rc == 0 and len(po) == len(pint_cases):
+            line_idx2 = {l: k for k, l in enumerate(lines)}
+            bad_i, bad_s = [], []
+            for (jl, r, t), o in zip(pint_cases, po):
+                w = o.split()
+                if len(w) != 3:
+                    bad_s.append((jl, o)); continue
+                if w[1] != "spec=same":
+                    bad_s.append((jl, o))
+                k = line_idx2.get(jl)
+                if k is not None and k < len(impl) and impl[k] != py_canon_of_bits(int(w[2], 16)):
+                    bad_i.append((jl[3:80], impl[k], w[0][:40], w[2]))
+            ctx.obligation("corr:parseInt impl=Lean-mechanism", "correspondence", not bad_i, "%d/%d; " % (len(bad_i), len(pint_cases)) + "; ".join(repr(x) for x in bad_i[:3]))
+            ctx.obligation("corr:parseInt Lean-mechanism=Lean-spec", "correspondence", not bad_s, "; ".join(repr(x) for x in bad_s[:3]))
+        else:
+            ctx.obligation("tie.model.run.pint", "tie", False, "rc=%s %d/%d" % (rc, len(po), len(pint_cases)))
     # second pass: canonicity of every numeric token the implementation produced (judge: the model's `Canon`)
     toks = sorted({t for t in impl if is_num_tok(t)})
     canon_of = {t: py_is_canon(t) for t in toks}
